@@ -517,7 +517,7 @@ func plants() []*plant {
 		ps = append(ps, &plant{Kind: kind, Where: where, Expect: exp, Stmt: func(w *writer, indent int, sc *scope) {
 			for i, l := range text {
 				extra := 0
-				if i > 0 {
+				if i > 0 && strings.HasSuffix(text[i-1], ":") {
 					extra = 1
 				}
 				w.line(indent+extra, l)
@@ -530,8 +530,8 @@ func plants() []*plant {
 	st("return", []string{"top"}, []string{"\x01return 1"}, always("RReturnToplevel"))
 	inFn := []string{"fn", "fn-for", "fn-if", "fn-def", "fn-for-def"}
 	st("load-in-function", inFn, []string{"\x01load(\"m.star\", \"zz\")"}, always("RLoadInFunction"))
-	st("load-underscore", []string{"top"}, []string{"load(\"m.star\", \x01\"_zz\")"}, always("RLoadUnderscore"))
-	st("load-underscore-alias", []string{"top"}, []string{"load(\"m.star\", yy=\x01\"_zz\")"}, always("RLoadUnderscore"))
+	st("load-underscore", []string{"top"}, []string{"load(\"m.star\", \"\x01_zz\")"}, always("RLoadUnderscore"))
+	st("load-underscore-alias", []string{"top"}, []string{"load(\"m.star\", yy=\"\x01_zz\")"}, always("RLoadUnderscore"))
 	st("while", inFn, []string{"\x01while 0:", "pass"}, func(o [6]bool, _ string) []string {
 		if o[oWhile] {
 			return nil
@@ -579,7 +579,7 @@ func plants() []*plant {
 	st("global-reassign", []string{"top"}, []string{"gg = 1", "---", "\x01gg = 2"}, gr("RReassign"))
 	st("global-reassign-def", []string{"top"}, []string{"gg = 1", "---", "def \x01gg():", "pass"}, gr("RReassign"))
 	st("global-reassign-aug", []string{"top"}, []string{"gg = 1", "---", "\x01gg += 2"}, gr("RReassign"))
-	st("load-twice", []string{"top"}, []string{"load(\"m.star\", \"zz\")", "---", "load(\"m.star\", \x01\"zz\")"}, func(o [6]bool, _ string) []string {
+	st("load-twice", []string{"top"}, []string{"load(\"m.star\", \"zz\")", "---", "load(\"m.star\", \"\x01zz\")"}, func(o [6]bool, _ string) []string {
 		switch {
 		case o[oGR]:
 			return nil
@@ -589,7 +589,7 @@ func plants() []*plant {
 		return []string{"RLoadReassign"}
 	})
 	st("load-then-assign", []string{"top"}, []string{"load(\"m.star\", \"zz\")", "---", "\x01zz = 2"}, gr("RReassign"))
-	st("assign-then-load", []string{"top"}, []string{"zz = 2", "---", "load(\"m.star\", \x01\"zz\")"}, func(o [6]bool, _ string) []string {
+	st("assign-then-load", []string{"top"}, []string{"zz = 2", "---", "load(\"m.star\", \"\x01zz\")"}, func(o [6]bool, _ string) []string {
 		// a file-local load binding does not collide with a global; a global one does
 		if o[oLBG] && !o[oGR] {
 			return []string{"RReassign"}
